@@ -104,3 +104,95 @@ Proof.
   split; [vm_compute; discriminate|]. split; [reflexivity|].
   intros x. cbn [In]. tauto.
 Qed.
+
+(** ** The DEFAULT handler needs no well-formedness premise
+
+    So far the handler's answers were data ([info]) assumed well formed.  Here they are COMPUTED
+    by the model of [DefaultHandler] (Model/DefaultInfo.v on top of the C26 model Model/Frames.v):
+    a program is its frame keys [keys] (an IndexMap, hence duplicate-free) and its used-qubit set
+    [avail]; an instruction [dinstr] is its frame-relevant part ([Frames.finstr]: PULSE / CAPTURE /
+    RAW-CAPTURE with their NONBLOCKING flag, DELAY, FENCE, RESET, SET-/SHIFT-*, SWAP-PHASES), or
+    for the other variants the arm of [DefaultHandler::role] it falls in, and the memory accesses
+    the handler reported (any lists, or an error).  [default_block] / [default_term] turn a block
+    into summaries: role and is_scheduled as in [impl InstructionHandler for DefaultHandler]
+    (RESET is RF-control but not scheduled, WAIT is control flow and scheduled),
+    used / blocked = [Frames.matching_frames], frames numbered by position in [keys].
+    [default_build] = [build] on those summaries.  [term_ok t]: the terminator, if it has an
+    instruction form, is control flow (JUMP / JUMP-WHEN / JUMP-UNLESS / HALT - all the CFG
+    construction produces). *)
+From QV Require Model.Frames.
+From QV Require Import Model.DefaultInfo Proofs.DefaultInfoProofs.
+
+(** The summaries of the default handler satisfy [wf_block], for every program, every block. *)
+Theorem C22_default_info_wf :
+  forall (keys : list Frames.frame) (avail : list N) (ds : list dinstr) (t : option dinstr),
+    NoDup keys -> term_ok t = true ->
+    wf_block (default_block keys avail ds) (default_term keys avail t) = true.
+Proof. exact default_info_wf. Qed.
+
+(** Hence [C22_edges_forward] and [C22_acyclic] hold of every block scheduled with the default
+    handler, with no premise on the handler left. *)
+Theorem C22_default_handler_dag :
+  forall (keys : list Frames.frame) (avail : list N) (ds : list dinstr) (t : option dinstr)
+         (E : list gedge),
+    NoDup keys -> term_ok t = true -> default_build keys avail ds t = inr E ->
+    (forall a b k, In (a, b, k) E -> a < b /\ b <= N.succ (N.of_nat (length ds))) /\
+    (forall x, ~ clos_trans N (gerel E) x x).
+Proof.
+  intros keys avail ds t E Hk Ht Hb. split.
+  - exact (default_build_forward keys avail ds t E Hk Ht Hb).
+  - exact (default_build_acyclic keys avail ds t E Hk Ht Hb).
+Qed.
+
+(** And [C22_all_reachable]: the only premise left is the property's own - every frame-related
+    instruction matches (uses or blocks) at least one frame defined in the program. *)
+Theorem C22_default_handler_reachable :
+  forall (keys : list Frames.frame) (avail : list N) (ds : list dinstr) (t : option dinstr)
+         (E : list gedge),
+    NoDup keys -> term_ok t = true -> default_build keys avail ds t = inr E ->
+    (forall d, In d ds -> d_frame d <> Frames.FOther ->
+       exists u b f, Frames.matching_frames keys avail (d_frame d) = Some (u, b) /\
+                     (In f u \/ In f b)) ->
+    forall i, 1 <= i <= N.of_nat (length ds) ->
+      clos_refl_trans N (gerel E) 0 i /\
+      clos_refl_trans N (gerel E) i (N.succ (N.of_nat (length ds))).
+Proof.
+  intros keys avail ds t E Hk Ht Hb Hm.
+  exact (default_build_reach keys avail ds t E Hk Ht Hb (d_matches_some_block keys avail ds Hm)).
+Qed.
+
+(** Non-vacuity: frames 0 "a" (number 0), 0 1 "ab" (1), 1 "a" (2); used qubits {0, 1}; the block
+      PULSE 0 "a" w ; NONBLOCKING PULSE 1 "a" w ; FENCE 1 ; RESET 0
+    followed by JUMP-WHEN reading region 0.  The default-handler model reports: the pulse uses
+    frame 0 and blocks frame 1; the nonblocking pulse uses frame 2; the fence uses frames 1, 2;
+    RESET 0 uses frame 0 and blocks frame 1 and is not scheduled.  The block builds; the edges
+    (start = 0, instructions 1..4, end = 5; an edge produced once per frame appears once per
+    frame in the model's list, the implementation stores a set) are as listed. *)
+Example C22_default_handler_nonvacuous :
+  let keys := [([0], 0); ([0; 1], 1); ([1], 0)] in
+  let avail := [0; 1] in
+  let nomem := Some ([], [], []) in
+  let ds := [MkD (Frames.FPlay Frames.KPulse true ([0], 0)) OClassical nomem;
+             MkD (Frames.FPlay Frames.KPulse false ([1], 0)) OClassical nomem;
+             MkD (Frames.FFence [1]) OClassical nomem;
+             MkD (Frames.FReset (Some 0)) OClassical nomem] in
+  let t := Some (MkD Frames.FOther OJump (Some ([0], [], []))) in
+  NoDup keys /\ term_ok t = true /\
+  default_block keys avail ds =
+    [MkInfo RRF false [] [] [] [0] [1] true;
+     MkInfo RRF false [] [] [] [2] [] true;
+     MkInfo RRF false [] [] [] [1; 2] [] true;
+     MkInfo RRF false [] [] [] [0] [1] false] /\
+  forallb (d_matches_some keys avail) ds = true /\
+  default_build keys avail ds t =
+    inr [(0, 1, KSched); (0, 1, KStable); (0, 1, KSched); (0, 1, KStable);
+         (0, 2, KSched); (0, 2, KStable);
+         (0, 3, KSched); (1, 3, KSched); (2, 3, KSched);
+         (0, 3, KStable); (1, 3, KStable); (2, 3, KStable);
+         (1, 4, KStable); (3, 4, KStable);
+         (1, 5, KSched); (3, 5, KSched); (3, 5, KSched);
+         (4, 5, KStable); (4, 5, KStable); (3, 5, KStable); (3, 5, KStable)].
+Proof.
+  cbv zeta. split; [apply nodupF_NoDup; reflexivity|].
+  vm_compute. repeat split.
+Qed.
